@@ -1,7 +1,7 @@
 (* C15 — lemmas behind the property theorems: foreign parameters are skipped, defaults,
    soundness of the boolean oracle, the model satisfies the oracle. *)
 From Coq Require Import List ZArith Lia Bool.
-From RD Require Import C15.Prim C15.PL C15.Qos C15.Model.
+From RD Require Import C15.Prim C15.PL C15.Qos C15.Disc C15.Model.
 Import ListNotations.
 Open Scope Z_scope.
 
@@ -38,6 +38,27 @@ Proof.
   rewrite <- (app_nil_r (enc_pl e ps')).
   rewrite (with_pl_foreign e _ qos_pids _ extra ps' [] (qos_looks_only_at e) (qos_params_ok e q) Hex M).
   rewrite app_nil_r. now apply roundtrip_qos.
+Qed.
+
+Lemma with_pl_roundtrip_foreign {A} e (f : plmap -> option A) pids ps extra ps' a :
+  looks_only_at f pids -> Forall param_ok ps -> Forall (foreign pids) extra -> Merge ps extra ps' ->
+  with_pl e (enc_pl e ps) f = Ok a -> with_pl e (enc_pl e ps') f = Ok a.
+Proof.
+  intros L Hps Hex M H. rewrite <- (app_nil_r (enc_pl e ps')).
+  rewrite (with_pl_foreign e f pids ps extra ps' [] L Hps Hex M). now rewrite app_nil_r.
+Qed.
+
+Lemma spdp_looks_only_at e : looks_only_at (spdp_from_map e) spdp_pids.
+Proof. intros m m' H. now apply spdp_from_map_ext. Qed.
+
+Lemma unknown_skipped_spdp e v extra ps' :
+  spdp_ok v -> Forall (foreign spdp_pids) extra -> Merge (spdp_to_params e v) extra ps' ->
+  decode_spdp e (enc_pl e ps') = Ok v.
+Proof.
+  intros H Hex M. unfold decode_spdp.
+  apply (with_pl_roundtrip_foreign e _ spdp_pids _ extra ps' v (spdp_looks_only_at e)
+           (spdp_params_ok e v H) Hex M).
+  now apply roundtrip_spdp.
 Qed.
 
 (* ------------------------------------------------------------------------------------------ *)
@@ -77,6 +98,34 @@ Proof.
   match goal with |- combine_ownership None ?s = None => destruct s; reflexivity end.
 Qed.
 
+Lemma get_all_absent {A} (r : reader A) (m : plmap) pid x :
+  m pid = [] -> get_all r m pid = Some x -> x = [].
+Proof. unfold get_all. intros ->. cbn. congruence. Qed.
+
+Lemma spdp_defaults e m v :
+  spdp_from_map e m = Some v ->
+  (m PID_EXPECTS_INLINE_QOS = [] -> sp_expects_inline_qos v = false) /\
+  (m PID_PARTICIPANT_MANUAL_LIVELINESS_COUNT = [] -> sp_manual_liveliness_count v = 0) /\
+  (m PID_METATRAFFIC_UNICAST_LOCATOR = [] -> sp_metatraffic_unicast_locators v = []) /\
+  (m PID_METATRAFFIC_MULTICAST_LOCATOR = [] -> sp_metatraffic_multicast_locators v = []) /\
+  (m PID_DEFAULT_UNICAST_LOCATOR = [] -> sp_default_unicast_locators v = []) /\
+  (m PID_DEFAULT_MULTICAST_LOCATOR = [] -> sp_default_multicast_locators v = []) /\
+  (m PID_PARTICIPANT_LEASE_DURATION = [] -> sp_lease_duration v = None) /\
+  (m PID_BUILTIN_ENDPOINT_QOS = [] -> sp_builtin_endpoint_qos v = None) /\
+  (m PID_ENTITY_NAME = [] -> sp_entity_name v = None).
+Proof.
+  unfold spdp_from_map. intros H.
+  repeat (apply obind_some in H; destruct H as (? & ? & H)).
+  inversion H; subst; clear H. cbn.
+  repeat match goal with |- _ /\ _ => split end; intros E;
+    try (eapply get_option_absent; [exact E | eassumption]);
+    try (eapply get_all_absent; [exact E | eassumption]).
+  - match goal with K : get_option dec_bool m _ = Some ?k |- _ =>
+      rewrite (get_option_absent _ _ _ _ E K) end. reflexivity.
+  - match goal with K : get_option (dec_i32 e) m _ = Some ?k |- _ =>
+      rewrite (get_option_absent _ _ _ _ E K) end. reflexivity.
+Qed.
+
 (* ------------------------------------------------------------------------------------------ *)
 (* boolean well-formedness reflects the Prop one *)
 Lemma i32_okb_spec n : i32_okb n = true <-> i32_ok n.
@@ -109,8 +158,41 @@ Proof.
   tauto.
 Qed.
 
-Lemma value_okb_spec v : value_okb v = true <-> value_ok v.
-Proof. destruct v; apply qos_okb_spec. Qed.
+Lemma locator_okb_spec l : locator_okb l = true -> locator_ok l.
+Proof.
+  destruct l; cbn [locator_okb locator_ok]; auto.
+  - apply u16_okb_spec.
+  - rewrite !andb_true_iff, !Z.eqb_eq, u16_okb_spec. tauto.
+  - rewrite !andb_true_iff, !negb_true_iff, !Z.eqb_neq, i32_okb_spec, u32_okb_spec, Z.eqb_eq. tauto.
+Qed.
+Lemma forallb_Forall {A} (p : A -> bool) (P : A -> Prop) l :
+  (forall a, p a = true -> P a) -> forallb p l = true -> Forall P l.
+Proof.
+  intros H. induction l as [|a l IH]; cbn; [constructor|].
+  rewrite andb_true_iff. intros [H1 H2]. constructor; auto.
+Qed.
+Lemma pstring_okb_spec s : pstring_okb s = true -> pstring_ok s.
+Proof. unfold pstring_okb, pstring_ok. rewrite andb_true_iff, Z.leb_le. tauto. Qed.
+Lemma oallb_sound {A} (p : A -> bool) (P : A -> Prop) o :
+  (forall a, p a = true -> P a) -> oallb p o = true -> oall P o.
+Proof. intros H. destruct o; cbn; auto. Qed.
+
+Lemma spdp_okb_spec v : spdp_okb v = true -> spdp_ok v.
+Proof.
+  unfold spdp_okb, spdp_ok. rewrite !andb_true_iff, Z.eqb_eq.
+  intros (((((((((H1 & H2) & H3) & H4) & H5) & H6) & H7) & H8) & H9) & H10).
+  repeat match goal with |- _ /\ _ => split end;
+    try (eapply forallb_Forall; [apply locator_okb_spec | eassumption]).
+  - exact H1.
+  - now apply u32_okb_spec.
+  - eapply oallb_sound; [|exact H7]. intros a. apply duration_okb_spec.
+  - now apply i32_okb_spec.
+  - eapply oallb_sound; [|exact H9]. intros a. apply u32_okb_spec.
+  - eapply oallb_sound; [|exact H10]. apply pstring_okb_spec.
+Qed.
+
+Lemma value_okb_spec v : value_okb v = true -> value_ok v.
+Proof. destruct v; [apply qos_okb_spec | apply spdp_okb_spec]. Qed.
 
 Lemma foreign_okb_spec k p : foreign_okb k p = true -> foreign (known_pids k) p.
 Proof.
@@ -161,8 +243,22 @@ Definition qos_defaults_ok (Ab : Z -> Prop) (q : qos) : Prop :=
   (Ab PID_RESOURCE_LIMITS -> q_resource_limits q = None) /\
   (Ab PID_LIFESPAN -> q_lifespan q = None).
 
+Definition spdp_defaults_ok (Ab : Z -> Prop) (v : spdp) : Prop :=
+  (Ab PID_EXPECTS_INLINE_QOS -> sp_expects_inline_qos v = false) /\
+  (Ab PID_PARTICIPANT_MANUAL_LIVELINESS_COUNT -> sp_manual_liveliness_count v = 0) /\
+  (Ab PID_METATRAFFIC_UNICAST_LOCATOR -> sp_metatraffic_unicast_locators v = []) /\
+  (Ab PID_METATRAFFIC_MULTICAST_LOCATOR -> sp_metatraffic_multicast_locators v = []) /\
+  (Ab PID_DEFAULT_UNICAST_LOCATOR -> sp_default_unicast_locators v = []) /\
+  (Ab PID_DEFAULT_MULTICAST_LOCATOR -> sp_default_multicast_locators v = []) /\
+  (Ab PID_PARTICIPANT_LEASE_DURATION -> sp_lease_duration v = None) /\
+  (Ab PID_BUILTIN_ENDPOINT_QOS -> sp_builtin_endpoint_qos v = None) /\
+  (Ab PID_ENTITY_NAME -> sp_entity_name v = None).
+
 Definition defaults_ok (Ab : Z -> Prop) (v : value) : Prop :=
-  match v with VQos q => qos_defaults_ok Ab q end.
+  match v with
+  | VQos q => qos_defaults_ok Ab q
+  | VSpdp s => spdp_defaults_ok Ab s
+  end.
 
 Lemma is_none_spec {A} (o : option A) : is_none o = true <-> o = None.
 Proof. destruct o; cbn; split; congruence. Qed.
@@ -176,9 +272,24 @@ Proof.
   rewrite !(implb'_spec _ _ _ _ (H _) (is_none_spec _)). tauto.
 Qed.
 
+Lemma is_nil_spec {A} (l : list A) : is_nil l = true <-> l = [].
+Proof. destruct l; cbn; split; congruence. Qed.
+Lemma negb_false_spec b : negb b = true <-> b = false.
+Proof. destruct b; cbn; split; congruence. Qed.
+
+Lemma spdp_defaults_okb_spec ab Ab v :
+  (forall pid, ab pid = true <-> Ab pid) -> (spdp_defaults_okb ab v = true <-> spdp_defaults_ok Ab v).
+Proof.
+  intros H. unfold spdp_defaults_okb, spdp_defaults_ok. rewrite !andb_true_iff.
+  rewrite !(implb'_spec _ _ _ _ (H _) (is_none_spec _)).
+  rewrite !(implb'_spec _ _ _ _ (H _) (is_nil_spec _)).
+  rewrite (implb'_spec _ _ _ _ (H _) (negb_false_spec _)).
+  rewrite (implb'_spec _ _ _ _ (H _) (Z.eqb_eq _ _)). tauto.
+Qed.
+
 Lemma defaults_okb_spec ab Ab v :
   (forall pid, ab pid = true <-> Ab pid) -> (defaults_okb ab v = true <-> defaults_ok Ab v).
-Proof. intros H. destruct v. now apply qos_defaults_okb_spec. Qed.
+Proof. intros H. destruct v; [now apply qos_defaults_okb_spec | now apply spdp_defaults_okb_spec]. Qed.
 
 (* what the property demands of an observation *)
 Definition Spec (c : case) (o : obs) : Prop :=
@@ -213,32 +324,43 @@ Qed.
 
 (* ------------------------------------------------------------------------------------------ *)
 (* the model satisfies the specification *)
+Lemma absent_lookup e bs ps pid : dec_pl e bs = Ok ps -> Absent e bs pid -> lookup_all ps pid = [].
+Proof. intros D (ps' & E1 & E2). rewrite D in E1. inversion E1; subst. exact E2. Qed.
+
 Lemma decode_defaults e k bs v : decode e k bs = Ok v -> defaults_ok (Absent e bs) v.
 Proof.
-  destruct k. unfold decode, decode_qos, with_pl.
-  destruct (dec_pl e bs) as [ps| |] eqn:D; cbn [omap]; try discriminate.
-  destruct (qos_from_map e (lookup_all ps)) as [q|] eqn:Q; cbn [omap]; try discriminate.
-  intros H. inversion H; subst. cbn [defaults_ok].
-  pose proof (qos_defaults e _ _ Q) as Hd. unfold qos_defaults_ok.
-  assert (A : forall pid, Absent e bs pid -> lookup_all ps pid = []).
-  { intros pid (ps' & E1 & E2). rewrite D in E1. inversion E1; subst. exact E2. }
-  repeat match goal with H : _ /\ _ |- _ => destruct H end.
-  repeat match goal with |- _ /\ _ => split end; intros Hab; apply A in Hab; auto.
+  destruct k; unfold decode, decode_qos, decode_spdp, with_pl;
+    destruct (dec_pl e bs) as [ps| |] eqn:D; cbn [omap]; try discriminate.
+  - destruct (qos_from_map e (lookup_all ps)) as [q|] eqn:Q; cbn [omap]; try discriminate.
+    intros H. inversion H; subst. cbn [defaults_ok].
+    pose proof (qos_defaults e _ _ Q) as Hd. unfold qos_defaults_ok.
+    pose proof (absent_lookup e bs ps) as A.
+    repeat match goal with H : _ /\ _ |- _ => destruct H end.
+    repeat match goal with |- _ /\ _ => split end; intros Hab; apply (A _ D) in Hab; auto.
+  - destruct (spdp_from_map e (lookup_all ps)) as [q|] eqn:Q; cbn [omap]; try discriminate.
+    intros H. inversion H; subst. cbn [defaults_ok].
+    pose proof (spdp_defaults e _ _ Q) as Hd. unfold spdp_defaults_ok.
+    pose proof (absent_lookup e bs ps) as A.
+    repeat match goal with H : _ /\ _ |- _ => destruct H end.
+    repeat match goal with |- _ /\ _ => split end; intros Hab; apply (A _ D) in Hab; auto.
 Qed.
 
 Lemma decode_encode e v : value_ok v -> decode e (kind_of v) (encode e v []) = Ok v.
 Proof.
-  destruct v as [q]. intros H. unfold decode, encode, kind_of, to_params, insert_all. cbn [fold_left].
-  change (enc_pl e (qos_to_params e q)) with (encode_qos e q). now rewrite roundtrip_qos.
+  destruct v as [q|s]; intros H; unfold decode, encode, kind_of, to_params, insert_all; cbn [fold_left].
+  - change (enc_pl e (qos_to_params e q)) with (encode_qos e q). now rewrite roundtrip_qos.
+  - change (enc_pl e (spdp_to_params e s)) with (encode_spdp e s). now rewrite roundtrip_spdp.
 Qed.
 
 Lemma decode_encode_foreign e v ins :
   value_ok v -> Forall (foreign (known_pids (kind_of v))) (map snd ins) ->
   decode e (kind_of v) (encode e v ins) = Ok v.
 Proof.
-  destruct v as [q]. intros H Hins. unfold decode, encode, kind_of, to_params.
-  destruct (Merge_insert_all ins (qos_to_params e q)) as (r & M & HP).
-  rewrite (unknown_skipped_qos e q r _ H (HP _ Hins) M). reflexivity.
+  destruct v as [q|s]; intros H Hins; unfold decode, encode, kind_of, to_params.
+  - destruct (Merge_insert_all ins (qos_to_params e q)) as (r & M & HP).
+    rewrite (unknown_skipped_qos e q r _ H (HP _ Hins) M). reflexivity.
+  - destruct (Merge_insert_all ins (spdp_to_params e s)) as (r & M & HP).
+    rewrite (unknown_skipped_spdp e s r _ H (HP _ Hins) M). reflexivity.
 Qed.
 
 Lemma run_spec c : Spec c (run c).
